@@ -11,7 +11,7 @@ import random
 import warnings
 
 from .. import common
-from ..mdmodel import Model, apply_model, apply_real, storage_agrees
+from ..mdmodel import Model, apply_model, apply_real, storage_agrees, compare_views
 
 RULE = (
     "random nested containers (4 classes, duplicate keys, lists/sets/nested "
@@ -147,8 +147,11 @@ def rand_op(rng, n):
         return ("update", [(rng.choice(K), v)], {})
     if r < 0.9:
         return ("extend", [(rng.choice(K), v), (rng.choice(K), 1)], {})
-    if r < 0.95:
+    if r < 0.93:
         return ("setdefault", rng.choice(K), v)
+    if r < 0.98:
+        return (rng.choice(("insert_before", "insert_after")), rng.choice(K),
+                (rng.choice(K), v), rng.choice((0, 0, 1, -1)))
     return ("clear",)
 
 
@@ -253,6 +256,17 @@ def one_case(rec, rng, col, m, mech, wit):
                             list(obj.values()) != [v for _, v in lst] or \
                             (obj == type(obj)(lst)) is not True:
                         views_ok = False
+                    # every accessor (lookup, getall, key_index in every
+                    # instance, view indexing ...) must show this side's own list
+                    try:
+                        bad = compare_views(obj, Model(lst), ("a", "b", "c", "zz",
+                                                             "Long_Key"),
+                                            (7, "m", None), rec.c)
+                    except Exception as e:      # an accessor died
+                        bad = [("accessor raised", type(e).__name__, str(e)[:100])]
+                    if bad:
+                        views_ok = False
+                        log = log + [("first disagreement", bad[0])]
             if not views_ok:
                 rec.violation("C11", mech.split("-")[0],
                               "views-of-copy-or-original-show-the-other-side",
